@@ -6,7 +6,7 @@ from univers import version_range as VR
 from univers.version_constraint import VersionConstraint
 from univers.version_range import VersionRange
 
-MODULES = ["Univers.Props.C15"]
+MODULES = ["Univers.Props.C15", "Univers.Text.AdvisoryTables"]
 _A = "Univers.Text.Advisory."
 THEOREMS = {"Univers.Text.AdvisoryThm": [_A + n for n in (
     "github_exact", "github_exact_scheme", "snyk_exact", "snyk_exact_scheme", "gitlab_exact", "gitlab_exact_dict",
